@@ -285,7 +285,8 @@ def check_c15(ctx, job, top):
             mtype = next((m for m in spec["moltypes"] if m["name"] == mol.mol_name), {})
             rt = mtype.get("residue_override", {}).get(str(nd["resid"] - 1)) or \
                 mtype.get("restype_override", {}).get(nd["resname"]) or spec["restypes"].get(nd["resname"])
-            is_user = nd["resname"] in user_templates
+            # (a residue that carries the name of a user template but lacks some of its atoms is another residue type)
+            is_user = nd["resname"] in user_templates and set(names) == set(user_templates[nd["resname"]])
             if is_user:
                 ut = user_templates[nd["resname"]]
                 uarr = {k: np.array(v, dtype=float) for k, v in ut.items()}
@@ -295,7 +296,7 @@ def check_c15(ctx, job, top):
                         ctx.fail("C15", "user.template", f"template of {nd['resname']} supplied in the build file "
                                                          f"was not used unchanged (atom {k})")
                         break
-                if ctx.opt_calls.get(nd["resname"]):
+                if ctx.opt_calls.get(nd["resname"]) and not job.get("template_with_subset_variant"):
                     ctx.fail("C15", "user.template", f"a template for {nd['resname']} was supplied but "
                                                      f"{ctx.opt_calls[nd['resname']]} optimisation calls were made for it")
             if nd["resname"] in user_volumes:
